@@ -101,8 +101,9 @@ def k_void(k: int, c: SimplicialComplex = None) -> SimplicialComplex:
 
     # this probably isn't the optimal way to do this, but it
     # maximises code reuse from the rest of the code base
+    existing = set() if c is None else set(c.simplicesOfOrder(k + 1))
     d = k_simplex(k + 1, c=c)
-    sos = list(d.simplicesOfOrder(k + 1))
+    sos = [s for s in d.simplicesOfOrder(k + 1) if s not in existing]
     d.deleteSimplex(sos[0])
     return d
 
